@@ -389,6 +389,20 @@ impl ConsumerGroup {
         (claimed, next_start)
     }
     
+    /// IDs pending for `consumer` that are greater than `after`, in ID order (at most `count`)
+    pub fn pending_history(&self, consumer: &str, after: StreamId, count: Option<usize>) -> Vec<StreamId> {
+        let pending = self.pending.read().unwrap();
+        let ids = pending
+            .get_entries_after(after)
+            .into_iter()
+            .filter(|entry| entry.consumer == consumer)
+            .map(|entry| entry.id);
+        match count {
+            Some(n) => ids.take(n).collect(),
+            None => ids.collect(),
+        }
+    }
+    
     /// Set the last delivered ID for the group
     pub fn set_id(&self, id: StreamId) {
         let mut last_id = self.last_delivered_id.lock().unwrap();
